@@ -53,6 +53,7 @@ func scenarios(tier string) []c18.Scenario {
 		{Name: "comment-shared || query-nil", Threads: [][]c18.Call{T(c18.CCommentShared), T(c18.CQueryNil)}},
 		{Name: "comment-shared || excerpt+prefix", Threads: [][]c18.Call{T(c18.CCommentShared), T(c18.CExcerpt, c18.CPrefix)}},
 		{Name: "comment-shared || snapshot", Threads: [][]c18.Call{T(c18.CCommentShared), T(c18.CSnapshot)}},
+		{Name: "setmeta-shared || comment-shared", Threads: [][]c18.Call{T(c18.CSetMetaShared), T(c18.CCommentShared)}},
 		{Name: "new || query-open", Threads: [][]c18.Call{T(c18.CNew), T(c18.CQueryOpen)}},
 		{Name: "cold: comment-shared || comment-shared", Cold: true, Threads: [][]c18.Call{T(c18.CCommentShared), T(c18.CCommentShared)}},
 		{Name: "cold: comment-shared || snapshot+excerpt", Cold: true, Threads: [][]c18.Call{T(c18.CCommentShared), T(c18.CSnapshot, c18.CExcerpt)}},
@@ -373,7 +374,7 @@ type c05tFound struct {
 
 const c05tRule = "all schedules of the listed threads with at most the completed number of preemptions; scheduling points are the lock operations of packages repository and util/lamport, the atomic operations of util/lamport and the file operations of the local storage (clock files); persisted flavour: the repository handle is freshly opened without clock loaders, so the first use of the clock happens under the threads; in-memory flavours: a bare lamport.MemClock and the clock of repository.NewMockRepo()"
 
-const c06tRule = "crash-in-schedule: all schedules (at most the completed number of preemptions) of one thread writing the bugs-edit clock and one thread doing what dag.merge does for a fetched new bug (witness its times, CopyRef); scheduling points are lock and atomic operations and the file operations of the local storage (TempFile, Create, OpenFile, Rename, Remove); at every scheduling point after the merging thread has returned, and at the end, the on-disk state is a crash image: distinct images (by clock files, local bug refs, rebuild marker) are copied, opened with OpenGoGitRepo + bug.ClockLoader and must hold clocks at or above every time stored under a local bug ref"
+const c06tRule = "crash-in-schedule: all schedules (at most the completed number of preemptions) of one thread writing the bugs-edit clock and one thread doing what dag.merge does for a fetched new bug (witness its times, CopyRef); scheduling points are lock and atomic operations and the file operations of the local storage (TempFile, Create, OpenFile, Rename, Remove); at every scheduling point after the merging thread has returned, and at the end, the on-disk state is a crash image: distinct images (by clock files, local bug refs, rebuild marker) are copied, opened with OpenGoGitRepo + bug.ClockLoader and must hold clocks at or above every time stored under a local bug ref; open-crash: OpenGoGitRepo + bug.ClockLoader on a repository with three bugs and one or both clock files missing: the state before every mutating file operation of the local storage (clock temp file, rename, rebuild marker create and remove) and the final state are crash images, and for every such operation k a run in which operation k and every later one return an error; every resulting state is opened again with the loader and judged the same way"
 
 // crashScenarios: the crash-in-schedule scenarios of C06.
 func crashScenarios(tier string) []c18.Scenario {
@@ -381,6 +382,9 @@ func crashScenarios(tier string) []c18.Scenario {
 	scs := []c18.Scenario{
 		{Name: "crash-in-schedule: witness(far) || merge-new-remote-bug", Clock: true, Crash: true, IO: true, Threads: [][]c18.Call{T(c18.CClockWitnessFar), T(c18.CMergeNew)}},
 		{Name: "crash-in-schedule: increment || merge-new-remote-bug", Clock: true, Crash: true, IO: true, Threads: [][]c18.Call{T(c18.CClockInc), T(c18.CMergeNew)}},
+	}
+	for _, missing := range []string{"edit", "create", "edit,create"} {
+		scs = append(scs, c18.Scenario{Name: "open-crash: OpenGoGitRepo + clock loader, missing clock file(s): " + missing, OpenCrash: missing})
 	}
 	if tier == "thorough" {
 		scs = append(scs,
